@@ -275,6 +275,65 @@ func markerPhase(o *common.Opts, pipelines int) (done, cmds int, cmdNames map[st
 				Detail: "TCP concurrent large replies against the real binary", Sig: "marker|concurrent large replies"})
 		}
 	}
+	// many connections read short values of the same length at the same moment: each must decode its own bytes
+	// (reply buffers or header tables shared between connections would hand one connection another one's payload)
+	if srv != nil && !srv.Exited() {
+		const conns, rounds = 8, 6000
+		var wg sync.WaitGroup
+		var mu sync.Mutex
+		firstBad := ""
+		total := 0
+		for i := 0; i < conns; i++ {
+			wg.Add(1)
+			go func(i int) {
+				defer wg.Done()
+				c, err := respc.Dial(srv.Addr, 30*time.Second)
+				if err != nil {
+					return
+				}
+				defer c.Close()
+				vals := []string{string([]byte{byte('A' + i), byte('a' + i)}), string([]byte{byte('0' + i)}), string([]byte{byte('A' + i), '\r', '\n', byte('a' + i)}), ""}
+				for j, v := range vals {
+					_, _ = c.Do("SET", fmt.Sprintf("short:%d:%d", i, j), v)
+				}
+				_, _ = c.Do("HSET", fmt.Sprintf("shorth:%d", i), "f", vals[0])
+				n := 0
+				for rd := 0; rd < rounds; rd++ {
+					j := rd % len(vals)
+					var v respc.Value
+					var err error
+					if rd%5 == 4 {
+						v, err = c.Do("HGET", fmt.Sprintf("shorth:%d", i), "f")
+						j = 0
+					} else {
+						v, err = c.Do("GET", fmt.Sprintf("short:%d:%d", i, j))
+					}
+					if err != nil {
+						break
+					}
+					n++
+					if v.Kind != '$' || v.Nil || string(v.Str) != vals[j] {
+						mu.Lock()
+						if firstBad == "" {
+							firstBad = fmt.Sprintf("connection %d, read %d: decoded %s, stored %q", i, rd, v.String(), vals[j])
+						}
+						mu.Unlock()
+						break
+					}
+				}
+				mu.Lock()
+				total += n
+				mu.Unlock()
+			}(i)
+		}
+		wg.Wait()
+		cmds += total
+		cmdNames["GET/HGET(1-4 byte values, 8 connections at once)"] += total
+		if firstBad != "" {
+			divs = append(divs, seqrun.Div{Kind: "framing", Cmd: []string{"GET short:<i>:<j>"}, Want: "each connection decodes the bytes stored under its own key", Got: firstBad,
+				Detail: "TCP concurrent short replies against the real binary", Sig: "marker|concurrent short replies"})
+		}
+	}
 	// a connection that has subscribed to a channel keeps sending commands with large array replies while two
 	// publishers publish to that channel: pushes and replies share the socket, and every value on it must still be
 	// either a whole push or a whole reply (a push must never land inside a reply)
